@@ -12,7 +12,8 @@ import wormhole_mailbox_server.server_tap as TAP
 
 def sweep_bounds(tier):
     if tier == "thorough":
-        return dict(K=3, S=2, M=1)
+        # K=3 did not finish within 29 minutes on 16 cores: the thorough sweep widens the bundles instead
+        return dict(K=2, S=2, M=2)
     return dict(K=2, S=2, M=1)
 
 
